@@ -261,6 +261,8 @@ def _lik_objects(case, g):
         else:
             lik = L.BernoulliLikelihood()
     util.randomize(lik, g, 0.5)
+    if case["seed"] % 2:
+        lik.eval()  # the statements hold in either mode
     return lik
 
 
